@@ -12,6 +12,11 @@ streams
   tree   arbitrary / mutated / hand-made trees through as_dict                     (correspondence only)
   walk   arbitrary item lists through the token walk of as_dict                    (correspondence only)
   v2s    value_to_string on str / bytes                                            (correspondence only)
+  g-walk g-src g-tree g-hist   every case of these streams once more, run through the definitions TRANSLATED from the source of
+         `C2Profile.as_dict` (tools/gen/py_c2dict.py -> Gen/PyC2Dict.lean: the token walk and the cache around it) and of
+         `string_token_to_bytes` (Gen/PyC2Prof.lean); Props/C11Gen.lean proves them equal to the model for ALL item lists / states
+  g-arg  `garg dict VALUE`     the translated `as_dict` with the Reconstructor answering a value of any kind
+  pyu    `pyu OP OPERANDS`     the run-time operations added for this unit (Model/PyU_T11.lean) vs CPython / lark
 """
 from __future__ import annotations
 
@@ -32,11 +37,14 @@ from gen import profile_api as PA
 
 from . import common as C
 from . import c10 as H10
+from . import pyuval_t11
 from .c10 import TAB, KW, NAMES, NAMEID, FORMS_OF, UNLEXABLE, hx, unhx, enc_tree, render, gen_literal
 
 ID = "C11"
 DRIVER = "drv_c11"
 GEN = ["grammar", "profile_api", "strlit"]
+GEN += ["c16_unicode", "py_c2prof", "py_c2dict"]
+EXTRA_PROP_FILES = ["Props/C11Gen.lean"]
 STREAMS = {
     "src": {"relevant": True, "desc": "C2Profile.from_text(src).as_dict() vs asDict (printItems (parse src)) and specDict"},
     "both": {"relevant": True, "desc": "the same abstract profile as text and as builder calls: tree / as_text / as_dict equal"},
@@ -45,8 +53,21 @@ STREAMS = {
     "tree": {"relevant": False, "desc": "as_dict on arbitrary trees (mutated, hand-made), incl. the exceptions it raises"},
     "walk": {"relevant": False, "desc": "the token walk of as_dict on arbitrary item lists (Reconstructor stubbed)"},
     "v2s": {"relevant": False, "desc": "value_to_string(str|bytes) vs valueToString"},
+    **{"g-" + s_: {"relevant": False, "desc": f"C2Profile.as_dict TRANSLATED from its source (Gen/PyC2Dict.lean: as_dict_walk / as_dict, with the "
+                                               f"translated string_token_to_bytes) on every case of the stream `{s_}`"}
+       for s_ in ("walk", "src", "tree", "hist")},
+    "g-build": {"relevant": False, "desc": "the builder calls of the stream `build` run through the TRANSLATED methods (ConfigBlock.set_option / "
+                                           "_pair / _enable / _header / _parameter / set_config_block / set_non_empty_config_block, "
+                                           "C2Profile.set_option, DataTransformBlock.__init__ / add_step / add_termination / tree, the bodies of "
+                                           "from_execute_list / from_beacon_gate_option_strings): the tree"},
+    "g-arg": {"relevant": False, "desc": "the translated as_dict vs the real one with the Reconstructor answering values of every kind"},
+    "pyu": {"relevant": False, "desc": "run-time operations of Model/PyU_T11.lean (Token as str in ==, in, join, str, tuple, repr; list.pop / "
+                                       "extend; defaultdict(list)) vs CPython / lark"},
 }
 TRUSTED = [
+    "tools/py2leanu.py + tools/gen/py_c2dict.py (the untyped translation of C2Profile.as_dict: the cut into walk and cache, the "
+    "self-mode threading of the profile object) and lean/CsVerif/Model/PyU.lean / PyU_T12.lean / PyU_T11.lean (the Python semantics of "
+    "the operations it emits); validated by the g-* and pyu streams",
     "tools/gen/profile_api.py (ast/introspection of as_dict's constants and of the builder classes), tools/gen/grammar.py, "
     "tools/harness/c11.py (generators, adapters, the independent walker used as oracle)",
     "lark.reconstruct.Reconstructor is modelled by C10.printTree (compared on every case, not verified); Lark's LALR "
@@ -61,14 +82,47 @@ ASSUMPTIONS = [
     "builder names are ASCII; values are str or bytes; keyword arguments named like ConfigBlock methods "
     "(set_option=…, init_kwargs=…) and block objects where values are expected are outside the modelled domain",
     "profile text is a sequence of Unicode code points without lone surrogates",
+    "translation of as_dict / the builders (Props/C11Gen.lean): the Reconstructor's generator is taken to be run to its end before "
+    "the walk starts (an exception it raises half-way hides what the walk did before); an exception inside as_dict() leaves the "
+    "profile object as it was (every attribute assignment of the method comes after the last raising operation); a block object is "
+    "not changed after it was attached by set_config_block (the real code shares the children list, the translation copies it); "
+    "names handed to from_beacon_gate_option_strings / from_execute_list are ASCII (str.lower() is modelled for ASCII only); a "
+    "lark.Token carries a str value",
 ]
 RULE = ("every statement/block form of the generated grammar in a minimal context, every block with/without variant incl. "
         "\"default\", empty and repeated blocks, list-property blocks with nasty byte literals, random profiles; each also as "
         "builder calls (kwargs and explicit methods, special constructors); histories of 3-8 operations; distinct = hash of "
         "input line; non-trivial = a non-empty dictionary or an exception outcome")
 
-API = PA.load(strict=False)
-CLASSES = API["classes"]
+# The builder-API tables.  When the plug-in cannot read a part of the API from the code under test (an unexpected shape: that is a
+# broken proof obligation, reported by check.py through the plug-in's failure), the generators fall back to the committed tables
+# of the pinned tree (corpus/C11/reference_api.json, written by `python -m harness.c11 --write-reference`): the builder calls the
+# pinned API defines are then still made against the real classes, so the behavioural difference itself is found.
+REFERENCE_API = Path(__file__).resolve().parent.parent.parent / "corpus" / "C11" / "reference_api.json"
+
+
+def _load_api():
+    try:
+        return PA.load(strict=False)
+    except Exception:  # noqa: BLE001
+        pass
+    ref = json.loads(REFERENCE_API.read_text())
+    mod = c2p
+    out = {}
+    try:
+        out["listProps"], out["asDictStrings"] = PA.list_props(mod)
+    except Exception:  # noqa: BLE001
+        out["listProps"], out["asDictStrings"] = [], []
+    for key, fn in (("classes", PA.classes), ("dt", PA.dt_tables), ("execute", PA.execute_tables)):
+        try:
+            out[key] = fn(mod)
+        except Exception:  # noqa: BLE001
+            out[key] = ref[key]
+    return out
+
+
+API = _load_api()
+CLASSES = [c for c in API["classes"] if hasattr(c2p, c[0])]
 CLS_IDX = {name: i for i, (name, _tn, _a) in enumerate(CLASSES)}
 CLS_ATTRS = {name: dict(attrs) for name, _tn, attrs in CLASSES}
 CLS_OBJ = {name: getattr(c2p, name) for name, _tn, _a in CLASSES}
@@ -803,7 +857,56 @@ def builder_expressible(nodes) -> bool:
     return True
 
 
+_G_OF = {"walk": "g-walk", "src": "g-src", "tree": "g-tree", "hist": "g-hist", "build": "g-build"}
+
+
 def gen(tier, rng, shard, nshards):
+    """the cases of the hand-model streams, each of `walk` / `src` / `tree` / `hist` once more through the translated definitions,
+    then arguments of other kinds and the run-time operations"""
+    nwalk = 0
+    for stream, line in _gen_model(tier, rng, shard, nshards):
+        yield stream, line
+        if stream == "walk":
+            nwalk += 1
+            if tier != "thorough" and nwalk % 2:
+                continue           # quick tier: every second random item list also through the translated walk
+        if stream in _G_OF:
+            yield _G_OF[stream], "g" + line
+        if stream == "both":        # the builder half of a `both` case, through the translated methods
+            yield "g-build", "gbuild " + line.split(" ", 2)[2]
+    thorough = tier == "thorough"
+    for _ in range((6000 if thorough else 500) // nshards):
+        v = gen_garg(rng)
+        if v is not None:
+            yield "g-arg", "garg dict " + v
+    for _ in range((60000 if thorough else 3500) // nshards):
+        line = pyuval_t11.case(rng)
+        if line is not None:
+            yield "pyu", line
+
+
+def gen_garg(rng):
+    """what the (stubbed) Reconstructor hands to the walk: item lists with odd members, and values that are no lists at all"""
+    r = rng.random()
+    if r < 0.6:
+        n = rng.choice([1, 2, 3, 4, 6])
+        v = [pyuval_t11.ritem(rng) if rng.random() < 0.8 else pyuval_t11.value(rng, 1) for _ in range(n)]
+        if rng.random() < 0.5:
+            v += [rng.choice([";", "{", "}", pyuval_t11.Token("STRING", ";"), pyuval_t11.Token("X", "}")])]
+        if rng.random() < 0.2:
+            v = tuple(v)
+    else:
+        v = pyuval_t11.value(rng)
+    # (not modelled: a defaultdict / a Token as the iterable of the `for` statement itself)
+    if pyuval_t11._has(v, pyuval_t11._badtok) or pyuval_t11._dd(v) or pyuval_t11._tok(v) or isinstance(v, dict) and pyuval_t11._has(v, pyuval_t11._tok):
+        return None
+    try:
+        return pyuval_t11.pshow(v)
+    except RuntimeError:
+        return None
+
+
+def _gen_model(tier, rng, shard, nshards):
     thorough = tier == "thorough"
     k = 0
 
@@ -1306,7 +1409,32 @@ class _StubReconstructor:
         return iter(list(_StubReconstructor.items))
 
 
+class _ValueReconstructor:
+    value = None
+
+    def __init__(self, parser):
+        pass
+
+    def _reconstruct(self, tree):
+        return _ValueReconstructor.value
+
+
 def impl(stream, line):
+    if stream == "pyu":
+        return pyuval_t11.run(line)
+    if stream == "g-arg":
+        saved = c2p.Reconstructor
+        _ValueReconstructor.value = pyuval_t11.pparse(line.split(" ")[2])
+        c2p.Reconstructor = _ValueReconstructor
+        try:
+            return "ok " + pyuval_t11.pshow(C2Profile().as_dict())
+        finally:
+            c2p.Reconstructor = saved
+    if stream == "g-build":
+        prof = profile_from_calls(line.split(" ")[1:])
+        return f"tree {' '.join(enc_any_tree(prof.tree))}"
+    if stream.startswith("g-"):
+        return impl(stream[2:], line[1:])
     w = line.split(" ")
     if stream == "src":
         try:
@@ -1412,6 +1540,14 @@ def impl(stream, line):
 
 
 def nontrivial(stream, line, out):
+    if stream == "pyu":
+        return True
+    if stream == "g-arg":
+        return out.startswith("exc ") or out != "ok D[|]"
+    if stream == "g-build":
+        return out.startswith("exc ") or out.count(" ") > 1
+    if stream.startswith("g-"):
+        return nontrivial(stream[2:], line[1:], out)
     if stream in ("src", "tree", "walk"):
         return out.startswith("exc ") and not out.startswith("exc LarkError") or out.startswith("ok K")
     if stream == "both":
@@ -1435,6 +1571,8 @@ def _has_known_label(stream, line) -> bool:
 
 def oracle(stream, line, out):
     if out.startswith("exc Timeout"):
+        return None
+    if stream.startswith("g-") or stream == "pyu":
         return None
     w = line.split(" ")
     if stream == "src":
@@ -1469,6 +1607,8 @@ def oracle(stream, line, out):
 
 
 def known(stream, line, known_list):
+    if stream.startswith("g-") or stream == "pyu":
+        return None
     for k in known_list:
         m = k.get("match", {})
         if m.get("tree_has_label") == "comment_dns_resolver" and stream in m.get("streams", ["build", "tree", "hist", "both"]):
@@ -1478,6 +1618,12 @@ def known(stream, line, known_list):
 
 
 def shrink(stream, line):
+    if stream in ("g-walk", "g-hist"):
+        for cand in shrink(stream[2:], line[1:]):
+            yield "g" + cand
+        return
+    if stream in ("pyu", "g-arg") or stream.startswith("g-"):
+        return
     w = line.split(" ")
     if stream == "src":
         for cand in H10.shrink("bad", "bad " + w[1]):
@@ -1492,3 +1638,11 @@ def shrink(stream, line):
             yield "hist " + " | ".join(" ".join(p) for p in rest)
     elif stream == "v2s":
         yield from C.shrink_tokens(line)
+
+
+if __name__ == "__main__":
+    import sys as _sys
+    if "--write-reference" in _sys.argv:
+        REFERENCE_API.parent.mkdir(parents=True, exist_ok=True)
+        REFERENCE_API.write_text(json.dumps(PA.load(strict=True), indent=0))
+        print("reference API tables written")
